@@ -146,7 +146,8 @@ def nameStep (line : String) : String :=
         let s5 := (s4.setattr 1 (if occupyTarget then loc else own) (.int 1)).1
         let r := s5.set 0 (d kA) (.int 2) false
         resStr r.2 ++ "," ++ resStr (r.1.sget loc) ++ "," ++ resStr (r.1.sget own)
-      "R " ++ run true ++ "|" ++ run false
+      -- `Client.absolute_name(key)` of a registered key is the key's own absolute name, remapped or not
+      "R " ++ run true ++ "|" ++ run false ++ "|" ++ absNameS (clientNsS (d nsA)) (d kA)
   | _ => "bad-op"
 
 end Bb
